@@ -17,6 +17,28 @@ import (
 	"time"
 )
 
+// cycle hands out variants in a fixed rotation (starting at a seed-dependent
+// offset), so that even the quick tier meets every kind of leftover.
+type cycle struct {
+	mu   sync.Mutex
+	list []string
+	i    int
+}
+
+func (c *cycle) next() string {
+	c.mu.Lock()
+	defer c.mu.Unlock()
+	v := c.list[c.i%len(c.list)]
+	c.i++
+	return v
+}
+
+var seqList = []string{"kill", "soft", "hard:missing", "killrerun", "badsig", "hard:empty", "soft:symlink", "hard:ptmp", "nocp",
+	"hard:pfile", "kill", "hard:badwidth", "soft", "hard:highlevel", "hard:tiledot", "killrerun"}
+var sparseCycle = &cycle{list: []string{"plain", "hard:empty", "kill", "soft:symlink", "hard:missing", "killrerun", "badsig", "soft", "hard:ptmp",
+	"plain", "hard:badwidth", "kill", "hard:pfile", "soft:symlink", "hard:highlevel", "hard:tiledot"}}
+var mirrorCycle = &cycle{list: []string{"plain", "kill", "soft", "hard:missing", "killrerun", "hard:empty", "plain", "hard:ptmp", "soft:symlink", "kill", "hard:badwidth"}}
+
 type planner struct {
 	r     *Runner
 	work  string
@@ -69,6 +91,7 @@ var softLeftovers = []string{"tmp", "dot", "unrelated", "epdir", "symlink"}     
 var hardLeftovers = []string{"ptmp", "pfile", "badwidth", "missing", "empty", "highlevel", "tiledot"} // the tool may give up
 
 func (p *planner) decorate(sc *Scenario, t *Target, rng *rand.Rand, variant string) {
+	variant, arg, _ := strings.Cut(variant, ":")
 	switch variant {
 	case "plain":
 	case "kill", "killrerun":
@@ -76,7 +99,7 @@ func (p *planner) decorate(sc *Scenario, t *Target, rng *rand.Rand, variant stri
 		sc.Rerun = variant == "killrerun"
 	case "soft":
 		for _, k := range softLeftovers {
-			if rng.Intn(2) == 0 {
+			if k == arg || rng.Intn(2) == 0 {
 				Leftover(t, k, rng)
 			}
 		}
@@ -84,8 +107,10 @@ func (p *planner) decorate(sc *Scenario, t *Target, rng *rand.Rand, variant stri
 			sc.KillAt = 1 + rng.Intn(max(1, countPartials(t.Dir, t.Mode)/2))
 		}
 	case "hard":
-		k := hardLeftovers[rng.Intn(len(hardLeftovers))]
-		Leftover(t, k, rng)
+		if arg == "" {
+			arg = hardLeftovers[rng.Intn(len(hardLeftovers))]
+		}
+		Leftover(t, arg, rng)
 		if rng.Intn(2) == 0 {
 			Leftover(t, softLeftovers[rng.Intn(len(softLeftovers))], rng)
 		}
@@ -124,8 +149,9 @@ func (p *planner) decorate(sc *Scenario, t *Target, rng *rand.Rand, variant stri
 // seqPath grows one log with the real sequencer through the given sizes
 // (each reached exactly, by rounds of random sizes) and at every stop takes
 // copies of the live directory as scenarios.
-func (p *planner) seqPath(idx int, stops []int64, maxRound int, variants []string, perStop int) {
+func (p *planner) seqPath(idx int, stops []int64, maxRound int, perStop int) {
 	rng := rand.New(rand.NewSource(p.seed*1000 + int64(idx)))
+	seqCycle := &cycle{list: seqList, i: int(p.seed)*5 + idx*7}
 	base := filepath.Join(p.work, fmt.Sprintf("live%02d", idx))
 	defer RemoveAll(base)
 	name := fmt.Sprintf("seq%d.verif.example/log", idx)
@@ -138,9 +164,9 @@ func (p *planner) seqPath(idx int, stops []int64, maxRound int, variants []strin
 	snapshot := func(state string) {
 		lockBody := live.Lock.value()
 		for v := 0; v < perStop; v++ {
-			variant := variants[rng.Intn(len(variants))]
-			if v == 0 {
-				variant = "plain"
+			variant := "plain"
+			if v > 0 {
+				variant = seqCycle.next()
 			}
 			scName := fmt.Sprintf("seq%d/n=%d%s/%s", idx, live.Size, state, variant)
 			vr := rand.New(rand.NewSource(rng.Int63()))
@@ -246,10 +272,7 @@ func sparseSizes(rng *rand.Rand, n int) []int64 {
 }
 
 func (p *planner) sparse(i int, n int64, rng *rand.Rand) {
-	variant := []string{"plain", "plain", "kill", "killrerun", "soft", "hard", "badsig"}[rng.Intn(7)]
-	if i < 4 {
-		variant = "plain"
-	}
+	variant := sparseCycle.next()
 	name := fmt.Sprintf("sparse/n=%d/%s", n, variant)
 	if !p.wanted(name) {
 		return
@@ -306,7 +329,7 @@ func (p *planner) mirror(i int, rng *rand.Rand, large bool) {
 	if ahead {
 		cpSize = sizes[len(sizes)-2]
 	}
-	variant := []string{"plain", "plain", "kill", "killrerun", "soft", "hard"}[rng.Intn(6)]
+	variant := mirrorCycle.next()
 	name := fmt.Sprintf("mirror%d/n=%d,tiles=%d/%s", i, cpSize, target, variant)
 	if !p.wanted(name) {
 		return
@@ -379,7 +402,7 @@ func TestAftersun(t *testing.T) {
 	p.sem = make(chan struct{}, max(2, min(12, runtime.NumCPU()*3/4)))
 	rng := rand.New(rand.NewSource(p.seed))
 
-	variants := []string{"plain", "kill", "killrerun", "soft", "hard", "kill", "soft", "badsig", "nocp"}
+	sparseCycle.i, mirrorCycle.i = int(p.seed)*3, int(p.seed)*2
 	nSmall, nLarge, perStop, nSparse, nMirror, nMirrorLarge := 1, 1, 1, 14, 6, 1
 	if p.thorough() {
 		nSmall, nLarge, perStop, nSparse, nMirror, nMirrorLarge = 7, 3, 5, 320, 140, 12
@@ -402,7 +425,7 @@ func TestAftersun(t *testing.T) {
 		paths.Add(1)
 		go func(i int) {
 			defer paths.Done()
-			p.seqPath(i, stops, 70, variants, ps)
+			p.seqPath(i, stops, 70, ps)
 			fmt.Printf("TIMING small path %d done at %.1fs\n", i, time.Since(start).Seconds())
 		}(i)
 	}
@@ -415,7 +438,7 @@ func TestAftersun(t *testing.T) {
 		paths.Add(1)
 		go func(i int) {
 			defer paths.Done()
-			p.seqPath(100+i, stops, 4000, variants, perStop+1)
+			p.seqPath(100+i, stops, 4000, perStop+1)
 			fmt.Printf("TIMING large path %d done at %.1fs\n", i, time.Since(start).Seconds())
 		}(i)
 	}
